@@ -27,6 +27,20 @@ type specCtx struct {
 	atBlock  *ssa.BasicBlock
 	ifacePkg *types.Package
 	loopHdr  *ssa.BasicBlock
+	coll     *[]instFn // collects positive universally quantified facts for term-directed instantiation
+	noColl   bool
+	skolems  map[string]*val
+	cells    map[*ssa.Alloc]*val
+	acOld    string // allocation counter of the pre-state (for fresh(x))
+	prove    bool // the expression is an obligation: positive foralls are skolemised (logical variables)
+	cguards  []string
+}
+
+// instFn: a universally quantified assumption `forall q. body`; instances are added at the index terms the code uses.
+type instFn struct {
+	bound string
+	body  string
+	used  int
 }
 
 func (fc *fnCtx) specCtxEntry() *specCtx {
@@ -38,7 +52,7 @@ func (fc *fnCtx) specCtxAt(names map[string]*val, h heap) *specCtx {
 }
 
 func (fc *fnCtx) specCtxRet(rs retSite) *specCtx {
-	return &specCtx{fc: fc, g: fc.g, fn: fc.fn, h: rs.h, oldH: fc.entryHeap, results: rs.vals, guard: rs.reach}
+	return &specCtx{fc: fc, g: fc.g, fn: fc.fn, h: rs.h, oldH: fc.entryHeap, results: rs.vals, guard: rs.reach, cells: rs.cells, acOld: fc.entryAC}
 }
 
 func (sc *specCtx) boolExpr(src string) (string, error) {
@@ -142,6 +156,18 @@ func (sc *specCtx) lookup(name string) (*val, error) {
 			for i := len(bs) - 1; i >= 0; i-- {
 				lb := bs[i]
 				if sc.atBlock == nil || lb.b == sc.atBlock || lb.b.Dominates(sc.atBlock) {
+					if lb.cell != nil {
+						cm := sc.cells
+						if cm == nil {
+							cm = sc.fc.cells
+						}
+						if v, ok := cm[lb.cell]; ok {
+							c := *v
+							c.ty = lb.ty
+							return &c, nil
+						}
+						return sc.g.zeroVal(lb.ty), nil
+					}
 					if lb.isAddr {
 						return sc.fc.loadH(sc.h, lb.ty, lb.v.t[0], lb.v.t[1], sc.ag()), nil
 					}
@@ -344,7 +370,13 @@ func (sc *specCtx) ev(e ast.Expr) (*val, error) {
 		}
 		return sc.slice(b, x)
 	case *ast.UnaryExpr:
-		a, err := sc.ev(x.X)
+		su := sc
+		if x.Op == token.NOT {
+			c := *sc
+			c.noColl = true
+			su = &c
+		}
+		a, err := su.ev(x.X)
 		if err != nil {
 			return nil, err
 		}
@@ -357,11 +389,17 @@ func (sc *specCtx) ev(e ast.Expr) (*val, error) {
 			return &val{k: kInt, w: a.w, signed: a.signed, ty: a.ty, untyped: a.untyped, t: []string{"(bvnot " + a.t[0] + ")"}}, nil
 		}
 	case *ast.BinaryExpr:
-		a, err := sc.ev(x.X)
+		sb := sc
+		if x.Op != token.LAND {
+			c := *sc
+			c.noColl = true
+			sb = &c
+		}
+		a, err := sb.ev(x.X)
 		if err != nil {
 			return nil, err
 		}
-		b, err := sc.ev(x.Y)
+		b, err := sb.ev(x.Y)
 		if err != nil {
 			return nil, err
 		}
@@ -421,6 +459,9 @@ func (sc *specCtx) index(b, idx *val) (*val, error) {
 		return nil, fmt.Errorf("non-integer index")
 	}
 	i64 := zext(idx, 64)
+	if len(sc.bound) == 0 && sc.fc != nil {
+		sc.fc.instantiateAt(i64)
+	}
 	switch b.k {
 	case kSlice:
 		var et types.Type = types.Typ[types.Uint8]
@@ -600,16 +641,12 @@ func (sc *specCtx) binary(op token.Token, a, b *val) (*val, error) {
 		return res(fmt.Sprintf("(bvsub %s %s)", A, B))
 	case token.MUL:
 		return res(fmt.Sprintf("(bvmul %s %s)", A, B))
-	case token.QUO:
-		if signed {
-			return res(fmt.Sprintf("(bvsdiv %s %s)", A, B))
+	case token.QUO, token.REM:
+		if sc.g.absDivMod && !isLiteral(B) && sc.g.inQuant == 0 {
+			return res(sc.g.divmodAbs(op == token.QUO, signed, a.w, A, B))
 		}
-		return res(fmt.Sprintf("(bvudiv %s %s)", A, B))
-	case token.REM:
-		if signed {
-			return res(fmt.Sprintf("(bvsrem %s %s)", A, B))
-		}
-		return res(fmt.Sprintf("(bvurem %s %s)", A, B))
+		o := map[bool]map[token.Token]string{true: {token.QUO: "bvsdiv", token.REM: "bvsrem"}, false: {token.QUO: "bvudiv", token.REM: "bvurem"}}[signed][op]
+		return res(fmt.Sprintf("(%s %s %s)", o, A, B))
 	case token.AND:
 		return res(fmt.Sprintf("(bvand %s %s)", A, B))
 	case token.OR:
@@ -773,16 +810,27 @@ func (sc *specCtx) call(x *ast.CallExpr) (*val, error) {
 	}
 	switch id.Name {
 	case "imp":
-		as, err := evArgs()
+		sa := *sc
+		sa.noColl = true
+		a, err := sa.ev(x.Args[0])
 		if err != nil {
 			return nil, err
 		}
-		return &val{k: kBool, t: []string{fmt.Sprintf("(=> %s %s)", as[0].t[0], as[1].t[0])}}, nil
+		sb := *sc
+		sb.cguards = append(append([]string{}, sc.cguards...), a.t[0])
+		b, err := sb.ev(x.Args[1])
+		if err != nil {
+			return nil, err
+		}
+		return &val{k: kBool, t: []string{fmt.Sprintf("(=> %s %s)", a.t[0], b.t[0])}}, nil
 	case "old":
 		sub := *sc
 		sub.h = sc.oldH
 		sub.results = nil
 		sub.names = nil
+		if len(sc.skolems) > 0 {
+			sub.names = sc.skolems
+		}
 		return sub.ev(x.Args[0])
 	case "len", "cap":
 		as, err := evArgs()
@@ -818,7 +866,7 @@ func (sc *specCtx) call(x *ast.CallExpr) (*val, error) {
 			op = "bvule"
 		}
 		if id.Name == "max" {
-			a, b = b, a
+			return &val{k: kInt, w: a.w, signed: a.signed, ty: a.ty, t: []string{fmt.Sprintf("(ite (%s %s %s) %s %s)", op, a.t[0], b.t[0], b.t[0], a.t[0])}}, nil
 		}
 		return &val{k: kInt, w: a.w, signed: a.signed, ty: a.ty, t: []string{fmt.Sprintf("(ite (%s %s %s) %s %s)", op, a.t[0], b.t[0], a.t[0], b.t[0])}}, nil
 	case "forall", "exists":
@@ -838,6 +886,39 @@ func (sc *specCtx) call(x *ast.CallExpr) (*val, error) {
 		if err != nil {
 			return nil, err
 		}
+		if id.Name == "forall" && sc.prove && !sc.noColl && len(sc.bound) == 0 && sc.fc != nil {
+			// logical variable: prove P for a fresh constant and let the quantified assumptions be instantiated at it
+			sk := g.declare(g.freshName("sk_"+vi.Name), "(_ BitVec 64)")
+			sc.fc.instantiateAt(sk)
+			// shifted instances: sub-slices s[lo:] and one-element shifts (insert/remove) relate index q to q±lo, q±1
+			sc.fc.instantiateAt(fmt.Sprintf("(bvadd %s #x0000000000000001)", sk))
+			sc.fc.instantiateAt(fmt.Sprintf("(bvsub %s #x0000000000000001)", sk))
+			top := sc.fc.topCtx()
+			for i, lo := range top.sliceLos {
+				if i >= 6 {
+					break
+				}
+				sc.fc.instantiateAt(fmt.Sprintf("(bvadd %s %s)", sk, lo))
+				sc.fc.instantiateAt(fmt.Sprintf("(bvsub %s %s)", sk, lo))
+			}
+			sub := *sc
+			sub.names = map[string]*val{}
+			for k, v := range sc.names {
+				sub.names[k] = v
+			}
+			sub.names[vi.Name] = &val{k: kInt, w: 64, signed: true, ty: types.Typ[types.Int], t: []string{sk}}
+			sub.skolems = map[string]*val{}
+			for k, v := range sc.skolems {
+				sub.skolems[k] = v
+			}
+			sub.skolems[vi.Name] = sub.names[vi.Name]
+			p, err := sub.ev(x.Args[3])
+			if err != nil {
+				return nil, err
+			}
+			rng := fmt.Sprintf("(and (bvsle %s %s) (bvslt %s %s))", zext(lo, 64), sk, sk, zext(hi, 64))
+			return &val{k: kBool, t: []string{fmt.Sprintf("(=> %s %s)", rng, p.t[0])}}, nil
+		}
 		name := g.freshName("q_" + vi.Name)
 		sub := *sc
 		sub.bound = map[string]*val{}
@@ -845,11 +926,20 @@ func (sc *specCtx) call(x *ast.CallExpr) (*val, error) {
 			sub.bound[k] = v
 		}
 		sub.bound[vi.Name] = &val{k: kInt, w: 64, signed: true, ty: types.Typ[types.Int], t: []string{name}}
+		g.inQuant++
 		p, err := sub.ev(x.Args[3])
+		g.inQuant--
 		if err != nil {
 			return nil, err
 		}
 		rng := fmt.Sprintf("(and (bvsle %s %s) (bvslt %s %s))", zext(lo, 64), name, name, zext(hi, 64))
+		if id.Name == "forall" && sc.coll != nil && !sc.noColl && len(sc.bound) == 0 {
+			body := fmt.Sprintf("(=> %s %s)", rng, p.t[0])
+			if len(sc.cguards) > 0 {
+				body = fmt.Sprintf("(=> %s %s)", and(sc.cguards...), body)
+			}
+			*sc.coll = append(*sc.coll, instFn{bound: name, body: body})
+		}
 		if id.Name == "forall" {
 			return &val{k: kBool, t: []string{fmt.Sprintf("(forall ((%s (_ BitVec 64))) (=> %s %s))", name, rng, p.t[0])}}, nil
 		}
@@ -899,6 +989,20 @@ func (sc *specCtx) call(x *ast.CallExpr) (*val, error) {
 			return nil, fmt.Errorf("%s is not loop-carried", vi.Name)
 		}
 		return &val{k: kBool, t: []string{fmt.Sprintf("(or (= %s %s) (>= %s %s))", cur.t[0], ent.t[0], cur.t[0], sc.fc.loopEntryAC[sc.loopHdr])}}, nil
+	case "fresh":
+		// fresh(x): x designates an object allocated during the call (not visible to the caller before)
+		as, err := evArgs()
+		if err != nil {
+			return nil, err
+		}
+		if sc.acOld == "" {
+			return nil, fmt.Errorf("fresh(x) is only meaningful in a postcondition")
+		}
+		r := as[0].t[0]
+		if as[0].k == kIface {
+			r = as[0].t[1]
+		}
+		return &val{k: kBool, t: []string{fmt.Sprintf("(or (= %s 0) (>= %s %s))", r, r, sc.acOld)}}, nil
 	case "sameobj":
 		// sameobj(a, b): the two references designate (parts of) the same allocated object
 		as, err := evArgs()
@@ -984,4 +1088,114 @@ func (sc *specCtx) ag() string {
 		return "#skip"
 	}
 	return sc.guard
+}
+
+// assumeSpec evaluates a boolean spec expression as an ASSUMPTION: quantified facts in positive position are
+// remembered so that instances can be added at the index terms the code uses later (term-directed instantiation).
+func (sc *specCtx) assumeSpec(src string) (string, error) {
+	var coll []instFn
+	sc.coll = &coll
+	f, err := sc.boolExpr(src)
+	sc.coll = nil
+	if err != nil {
+		return "", err
+	}
+	if sc.fc != nil {
+		top := sc.fc.topCtx()
+		for _, c := range coll {
+			c := c
+			top.instFns = append(top.instFns, &c)
+		}
+	}
+	return f, nil
+}
+
+func (fc *fnCtx) instantiateAt(idx string) {
+	if strings.Contains(idx, "q_") {
+		return
+	}
+	top := fc.topCtx()
+	if top.instSeen == nil {
+		top.instSeen = map[string]bool{}
+	}
+	isNew := !top.instSeen["term:"+idx]
+	if isNew {
+		top.instSeen["term:"+idx] = true
+		top.instTerms = append(top.instTerms, idx)
+	}
+	for _, in := range top.instFns {
+		emit := func(outer string, inner []string) {
+			key := in.bound + "@" + outer + "@" + strings.Join(inner, ",")
+			if top.instSeen[key] || in.used >= 400 {
+				return
+			}
+			top.instSeen[key] = true
+			in.used++
+			body := strings.ReplaceAll(in.body, in.bound, outer)
+			fc.g.assume(expandInnerForall(body, inner))
+		}
+		if !strings.Contains(in.body, "(forall ((") {
+			emit(idx, nil)
+			continue
+		}
+		// nested quantifier: instantiate pairs over the index terms seen so far
+		terms := top.instTerms
+		if len(terms) > 12 {
+			terms = terms[len(terms)-12:]
+		}
+		emit(idx, terms)
+		if isNew {
+			for _, o := range terms {
+				if o != idx {
+					emit(o, []string{idx})
+				}
+			}
+		}
+	}
+}
+
+// expandInnerForall adds, next to the first nested `(forall ((v (_ BitVec 64))) body)` of f, the instances of body
+// at the given terms (the quantified formula itself is kept).
+func expandInnerForall(f string, terms []string) string {
+	const pfx = "(forall (("
+	i := strings.Index(f, pfx)
+	if i < 0 || len(terms) == 0 {
+		return f
+	}
+	// variable name
+	j := i + len(pfx)
+	k := strings.IndexByte(f[j:], ' ')
+	if k < 0 {
+		return f
+	}
+	v := f[j : j+k]
+	// end of the forall term
+	depth := 0
+	end := -1
+	for p := i; p < len(f); p++ {
+		if f[p] == '(' {
+			depth++
+		} else if f[p] == ')' {
+			depth--
+			if depth == 0 {
+				end = p
+				break
+			}
+		}
+	}
+	if end < 0 {
+		return f
+	}
+	whole := f[i : end+1]
+	// body starts after "(forall ((v (_ BitVec 64))) "
+	hd := strings.Index(whole, "))) ")
+	if hd < 0 {
+		return f
+	}
+	body := whole[hd+4 : len(whole)-1]
+	parts := []string{whole}
+	for _, t := range terms {
+		parts = append(parts, strings.ReplaceAll(body, v, t))
+	}
+	return f[:i] + "(and " + strings.Join(parts, " ") + ")" + f[end+1:]
 }
